@@ -105,8 +105,7 @@ def bounds(tier):
         else "L1 <= 3, L2 <= 3 for all 5 palettes; (4,1) (1,4) (4,2) (2,4) (4,3) (3,4) complete and (4,4) without clipped "
              "ends for the seed's palette",
         "triple_lengths": "each <= 2: complete up to total length 5, (2,2,2) without clipped ends" if q
-        else "each <= 2: complete (total length <= 5 for all 5 palettes, (2,2,2) complete for the seed's palette and "
-             "without clipped ends for the others)",
+        else "each <= 2: complete (total length <= 5 for all 5 palettes, (2,2,2) complete for the seed's palette)",
         "letters": 2,
         "palettes": "1 of 5 (by seed)" if q else "5 (see pair/triple/msa bounds)",
         "cigar_read": ("<= 3" if q else "<= 4") + " operations over MIDNSH=X, lengths {1,2} (+11 for <= 2 operations), "
@@ -1387,7 +1386,6 @@ def shards(tier, seed):
         for lens in triple_small:
             fam(lens, allp, 2500)
         fam((2, 2, 2), [pi], 2500)
-        fam((2, 2, 2), [p for p in allp if p != pi], 2500, full_only=True)
     # cigar reader
     for p in ([pi] if q else allp):
         parts = 4 if q else 16
